@@ -13,6 +13,8 @@
      keep     no `omitempty` (or a DurationConfig, a struct for encoding/json): always written
      ptr      pointer with `omitempty`: nil is not written, a pointer to a zero value is written
      ptrnull  pointer without `omitempty`: nil is written as null
+     pair     pointer to a value with its own MarshalJSON/UnmarshalJSON pair that keeps a private copy of the
+              serialised form (TLS sds_source: SecretConfigWrapper); the pair must be inverse
      struct   nested struct: always written
      default  a zero value is replaced by a default while the configuration is registered
      clamp    the value is forced into a range while the configuration is registered
@@ -30,13 +32,13 @@ CONSTANTS Types,      \* struct types of the type graph
           Width,      \* how many fields deviate from the base assignment (1 or 2)
           Defects
 
-Kinds   == {"omit", "keep", "ptr", "ptrnull", "struct", "default", "clamp", "reshape"}
+Kinds   == {"omit", "keep", "ptr", "ptrnull", "pair", "struct", "default", "clamp", "reshape"}
 Classes == {"unset", "zero", "typ", "bound"}       \* what a configuration file can say about a field
 
 (* ---------- the cycle, field by field ---------- *)
 
 \* in-memory value after json.Unmarshal: Go has no "unset" except for pointers
-LoadV(k, c) == IF c \in {"unset", "null"} THEN (IF k \in {"ptr", "ptrnull"} THEN "nil" ELSE "zero") ELSE c
+LoadV(k, c) == IF c \in {"unset", "null"} THEN (IF k \in {"ptr", "ptrnull", "pair"} THEN "nil" ELSE "zero") ELSE c
 
 \* registration into the effective configuration (ParseClusterConfig, ParseListenerConfig, handler defaults)
 RegV(k, m) == CASE k = "default" /\ m = "zero"            -> "dflt"
@@ -45,6 +47,7 @@ RegV(k, m) == CASE k = "default" /\ m = "zero"            -> "dflt"
 
 \* what transferConfig + json.Marshal write for the field ("unset" = key not written)
 DumpV(k, m) == CASE "MarshalDrops" \in Defects /\ k = "omit"             -> "unset"   \* json:"-" on the marshal side only
+                 [] "PairNotInverse" \in Defects /\ k = "pair" /\ m \in {"typ", "bound"} -> "zero" \* the wrapper keeps its name, loses its payload
                  [] "PtrZeroOmitted" \in Defects /\ k = "ptr" /\ m = "zero" -> "unset" \* omitempty applied to the pointee
                  [] m = "nil"                                             -> IF k = "ptrnull" THEN "null" ELSE "unset"
                  [] k = "omit" /\ m = "zero"                              -> "unset"
@@ -110,7 +113,7 @@ SetSurvives    == pc \in {"persisted", "restarted", "done"} =>
                       LET k == KindOf[ty][f] IN
                         /\ (file[f] = "typ" => dump1[f] = "typ")
                         /\ (file[f] = "bound" /\ k # "clamp" => dump1[f] = "bound")
-                        /\ (file[f] = "zero" /\ k \in {"ptr", "ptrnull", "keep", "struct", "reshape"} => dump1[f] = "zero")
+                        /\ (file[f] = "zero" /\ k \in {"ptr", "ptrnull", "pair", "keep", "struct", "reshape"} => dump1[f] = "zero")
 
 (* ---------- what the harness must observe on the real code (used by ConfigDumpTrace) ---------- *)
 
